@@ -133,6 +133,8 @@ pub fn set_skip_fsync(b: bool) {
 }
 
 /// Fail the mutating call with 0-based index `idx` (counted from `start`) with `errno`.
+/// A NEGATIVE errno asks for the way a full device usually fails a write: the call with index `idx` is performed
+/// SHORT (half of its bytes, when it is a write of at least two bytes) and the call after it fails with `-errno`.
 pub fn fail_at(idx: u64, errno: i32) {
     with(|s| s.fail_at = Some((idx, errno)));
 }
@@ -167,6 +169,8 @@ pub fn release() {
 enum Gate {
     Go,
     Fail(i32),
+    /// a SHORT write: half of the bytes are written, then the next mutating call (the retry of the rest) fails
+    Short(i32),
 }
 
 /// Bookkeeping before a mutating call: index, fault, pause.
@@ -186,6 +190,10 @@ fn gate() -> Gate {
         if let Some((f, e)) = s.fail_at {
             if f == idx {
                 s.fail_at = None;
+                if e < 0 {
+                    s.fail_at = Some((idx + 1, -e));
+                    return Gate::Short(-e);
+                }
                 return Gate::Fail(e);
             }
         }
@@ -194,6 +202,11 @@ fn gate() -> Gate {
     if let Some((f, e)) = s.fail_at {
         if f == idx {
             s.fail_at = None;
+            if e < 0 {
+                // the call after this one - the retry of what was not written - fails
+                s.fail_at = Some((idx + 1, -e));
+                return Gate::Short(-e);
+            }
             return Gate::Fail(e);
         }
     }
@@ -288,7 +301,8 @@ unsafe fn do_open(real: OpenFn, path: *const c_char, flags: c_int, mode: mode_t)
     };
     if kind != "open_ro" {
         call_gate(kind, &file);
-        if let Gate::Fail(e) = gate() {
+        if let Gate::Fail(e) | Gate::Short(e) = gate() {
+            with(|s| if matches!(s.fail_at, Some((_, x)) if x == e) { s.fail_at = None });
             record(kind, file, flags, 0, vec![], -1, e, true);
             set_errno(e);
             return -1;
@@ -350,10 +364,29 @@ pub unsafe extern "C" fn write(fd: c_int, buf: *const c_void, n: size_t) -> ssiz
     let keep = with(|s| s.keep_data);
     let data = if keep { std::slice::from_raw_parts(buf as *const u8, n).to_vec() } else { vec![] };
     call_gate("write", &file);
-    if let Gate::Fail(e) = gate() {
-        record("write", file, 0, n as u64, data, -1, e, true);
-        set_errno(e);
-        return -1;
+    match gate() {
+        Gate::Fail(e) => {
+            record("write", file, 0, n as u64, data, -1, e, true);
+            set_errno(e);
+            return -1;
+        }
+        Gate::Short(e) => {
+            if n < 2 {
+                // nothing to halve: fails outright (the follow-up failure is disarmed)
+                with(|s| s.fail_at = None);
+                record("write", file, 0, n as u64, data, -1, e, true);
+                set_errno(e);
+                return -1;
+            }
+            let r = f(fd, buf, n / 2);
+            let e2 = if r < 0 { get_errno() } else { 0 };
+            record("write", file, 0, n as u64, data, r as i64, e2, true);
+            if r < 0 {
+                set_errno(e2);
+            }
+            return r;
+        }
+        Gate::Go => {}
     }
     let r = f(fd, buf, n);
     let e = if r < 0 { get_errno() } else { 0 };
